@@ -117,6 +117,9 @@ fn live_delta(evs: &[Ev]) -> i64 {
 }
 
 fn run1(op: &[u64]) -> Vec<u64> {
+    if op.len() == 3 && op[0] >= 20 && op[0] < 60 {
+        return crate::dpanic::run1(op[0] - 20, op[1] as usize, op[2]);
+    }
     if op.len() < 6 {
         return vec![99];
     }
@@ -264,6 +267,10 @@ pub fn run_case(ops: &[Vec<u64>]) -> Vec<Vec<u64>> {
 pub fn allocfail_main(ctor: u64, k: isize) -> ! {
     use std::io::Write;
     use std::mem::MaybeUninit;
+    // black_box: a release build must not optimise the allocation of a forgotten result away
+    fn keep<T>(x: T) {
+        std::mem::forget(std::hint::black_box(x));
+    }
     let out = std::io::stdout();
     let mark = |s: &str| {
         let mut o = out.lock();
@@ -278,22 +285,22 @@ pub fn allocfail_main(ctor: u64, k: isize) -> ! {
     talloc::record(true);
     talloc::fail_at(k);
     match ctor {
-        0 => std::mem::forget(Arc::new(Tok::new())),
-        1 => std::mem::forget(Arc::from_header_and_iter(7u32, items.into_iter())),
-        2 => std::mem::forget(ThinArc::from_header_and_iter(7u32, items.into_iter())),
-        3 => std::mem::forget(items.into_iter().collect::<Arc<[Tok]>>()),
-        4 => std::mem::forget(items.into_iter().filter(|_| true).collect::<Arc<[Tok]>>()),
-        5 => std::mem::forget(Arc::from_header_and_vec(7u32, items)),
-        6 => std::mem::forget(Arc::<Tok>::from(boxed)),
-        7 => std::mem::forget(UniqueArc::<Tok>::new_uninit()),
-        8 => std::mem::forget(UniqueArc::<[MaybeUninit<Tok>]>::new_uninit_slice(3)),
-        9 => std::mem::forget(UniqueArc::<HeaderSlice<u32, [MaybeUninit<Tok>]>>::from_header_and_uninit_slice(7u32, 3)),
-        10 => std::mem::forget(Arc::<[u32]>::from(&[1u32, 2, 3][..])),
-        11 => std::mem::forget(Arc::from_header_and_str(7u32, "abc")),
+        0 => keep(Arc::new(Tok::new())),
+        1 => keep(Arc::from_header_and_iter(7u32, items.into_iter())),
+        2 => keep(ThinArc::from_header_and_iter(7u32, items.into_iter())),
+        3 => keep(items.into_iter().collect::<Arc<[Tok]>>()),
+        4 => keep(items.into_iter().filter(|_| true).collect::<Arc<[Tok]>>()),
+        5 => keep(Arc::from_header_and_vec(7u32, items)),
+        6 => keep(Arc::<Tok>::from(boxed)),
+        7 => keep(UniqueArc::<Tok>::new_uninit()),
+        8 => keep(UniqueArc::<[MaybeUninit<Tok>]>::new_uninit_slice(3)),
+        9 => keep(UniqueArc::<HeaderSlice<u32, [MaybeUninit<Tok>]>>::from_header_and_uninit_slice(7u32, 3)),
+        10 => keep(Arc::<[u32]>::from(&[1u32, 2, 3][..])),
+        11 => keep(Arc::from_header_and_str(7u32, "abc")),
         12 => {
-            let _ = Arc::make_mut(&mut shared2);
+            let _ = std::hint::black_box(Arc::make_mut(&mut shared2));
         }
-        13 => std::mem::forget(Arc::<MaybeUninit<Tok>>::new_uninit()),
+        13 => keep(Arc::<MaybeUninit<Tok>>::new_uninit()),
         _ => {
             mark("BADCTOR");
             std::process::exit(3)
